@@ -29,7 +29,21 @@ fi
 
 BIN=".bin/$id_lc"
 RFLAG=""; [ "$RACE" = 1 ] && RFLAG="-race"
-if ! go build -tags verif $RFLAG -o "$BIN" "$PKG" > ".out/$id_lc.build.log" 2>&1; then
+OUT="$ROOT"
+MODFLAG=""
+if [ -n "${VERIF_REPO:-}" ] && [ "$VERIF_REPO" != /repo ]; then
+  # trial run against a scratch copy of the repository (mutant trials): separate module
+  # file, binaries and output directories; the registered commands never set VERIF_REPO
+  tag="$(echo "$VERIF_REPO" | md5sum | cut -c1-8)"
+  mkdir -p ".out/alt-$tag"
+  sed "s#=> /repo#=> $VERIF_REPO#" go.mod > ".out/alt-$tag/go.mod"; cp go.sum ".out/alt-$tag/go.sum"
+  MODFLAG="-modfile=$ROOT/.out/alt-$tag/go.mod"
+  BIN=".bin/$id_lc-alt-$tag"
+  OUT="$ROOT/.out/alt-$tag"; mkdir -p "$OUT/evidence" "$OUT/replay"
+  export VERIF_OUT_ROOT="$OUT"
+  id_lc="$id_lc-alt-$tag"
+fi
+if ! go build $MODFLAG -tags verif $RFLAG -o "$BIN" "$PKG" > ".out/$id_lc.build.log" 2>&1; then
   cat ".out/$id_lc.build.log"
   echo "INCONCLUSIVE property=$ID build failed"
   exit 2
@@ -38,15 +52,15 @@ fi
 for d in "$PKG"/child*/; do
   [ -d "$d" ] || continue
   n="$(basename "$d")"
-  if ! go build -tags verif $RFLAG -o ".bin/$id_lc-$n" "$d" >> ".out/$id_lc.build.log" 2>&1; then
+  if ! go build $MODFLAG -tags verif $RFLAG -o ".bin/$id_lc-$n" "$d" >> ".out/$id_lc.build.log" 2>&1; then
     cat ".out/$id_lc.build.log"; echo "INCONCLUSIVE property=$ID build failed ($n)"; exit 2
   fi
 done
 
 rm -f .out/$id_lc.race.* ".out/$id_lc.log"
-[ "$MODE" = replay ] || rm -f "evidence/$ID.json"
+[ "$MODE" = replay ] || rm -f "$OUT/evidence/$ID.json"
 export GORACE="halt_on_error=0 log_path=$ROOT/.out/$id_lc.race"
-export VERIF_BIN_DIR="$ROOT/.bin"
+export VERIF_BIN_DIR="$ROOT/.bin" VERIF_BIN_PREFIX="$id_lc"
 timeout -s QUIT -k 20 "$WD" "$BIN" > ".out/$id_lc.log" 2>&1
 rc=$?
 # print verdict-relevant lines (full log stays in .out)
